@@ -1,10 +1,26 @@
 /- Line-protocol driver: one request per line on stdin, one answer per line on stdout. -/
 import Ldap3V.Driver.Ber
+import Ldap3V.Driver.Envelope
+import Ldap3V.Driver.Filter
+import Ldap3V.Driver.Escape
+import Ldap3V.Driver.Entry
+import Ldap3V.Driver.Codecs
+import Ldap3V.Driver.Url
+import Ldap3V.Driver.Requests
+import Ldap3V.Driver.Results
+import Ldap3V.Driver.Conn
+import Ldap3V.Driver.Stream
+import Ldap3V.Driver.Setup
+import Ldap3V.Driver.Sync
 open Ldap3V.Driver
+
+def handlers : List (String → String → Option String) :=
+  [handleBer, handleEnvelope, handleFilter, handleEscape, handleEntry, handleCodecs, handleUrl,
+   handleRequests, handleResults, handleConn, handleStream, handleSetup, handleSync]
 
 def dispatch (line : String) : String :=
   let (cmd, arg) := splitCmd line
-  match handleBer cmd arg with
+  match handlers.findSome? (fun h => h cmd arg) with
   | some r => r
   | none => "unknown-command"
 
